@@ -19,6 +19,7 @@ import (
 	"syscall"
 	"time"
 
+	"github.com/ansible/receptor/pkg/verifhook"
 	"github.com/ghjm/cmdline"
 	"github.com/google/shlex"
 	"github.com/spf13/viper"
@@ -155,6 +156,7 @@ func commandRunner(command string, params string, unitdir string) error {
 	if err != nil {
 		return err
 	}
+	verifhook.At("runner.started", unitdir)
 	doneChan := make(chan bool, 1)
 	go cmdWaiter(cmd, doneChan)
 	writeStatusFailures := 0
@@ -203,6 +205,7 @@ loop:
 			MainInstance.nc.GetLogger().Error("Error updating status file %s: %s", statusFilename, err)
 		}
 	}
+	verifhook.At("runner.final_written", unitdir)
 	os.Exit(cmd.ProcessState.ExitCode())
 
 	return nil
@@ -343,6 +346,7 @@ func (cw *commandUnit) Cancel() error {
 		return err
 	}
 	defer proc.Release()
+	verifhook.At("cancel.before_signal")
 	err = proc.Signal(os.Interrupt)
 	if err != nil {
 		if strings.Contains(err.Error(), "already finished") {
@@ -353,6 +357,7 @@ func (cw *commandUnit) Cancel() error {
 	}
 
 	proc.Wait()
+	verifhook.At("cancel.before_write")
 
 	cw.UpdateBasicStatus(WorkStateCanceled, "Canceled", -1)
 
